@@ -28,7 +28,8 @@ CHECKS = {
     "C13": ("differential monitor between the two parsers and the conversions, on the shared stream",
             "Both parsers run on the same bytes; whenever LanguageIdentifier accepts, Locale must accept with equal id, no extensions and "
             "equal string; for well-formed locales the id must equal the LanguageIdentifier parsed from the prefix before the first "
-            "singleton; From/Into/AsRef conversions are checked on every accepted Locale. No external oracle.",
+            "singleton (a well-formed locale string that Locale rejects has no id and fails the clause); From/Into/AsRef conversions are checked on every accepted Locale. "
+            "No external oracle except the zone classifier that says which strings are well-formed locales.",
             "DESIGN.md section 5, C13", TRUST),
     "C04": ("output monitor: independent canonicaliser over the observed getters + strict recogniser, on parsed and manufactured values",
             "Every value reached by parsing the shared stream, by random mutation histories (every intermediate value), by from_parts and by field "
@@ -52,19 +53,23 @@ CHECKS = {
             "Every public mutator/getter call of a history is mirrored on a model made of sorted sets, a sorted multiset and ordered maps. After "
             "every step: return value, error => value unchanged, every getter, is_empty, has_*, iterator lengths, to_string, re-parse and "
             "single-representation are compared. Exhaustive over all histories of length <= 3 (quick) / 4 (thorough) on a 64-operation alphabet "
-            "from 21 start values; random histories of 30-300 operations with valid, boundary and invalid arguments.",
+            "from 21 start values; random histories of 30-300 operations with valid, boundary and invalid arguments that share arguments between operations, "
+            "including copies onto populated values with Clone::clone_from; an argument sweep gives every argument-taking operation every byte string of "
+            "length 0-2, boundary-byte strings of length 3 (thorough 4), every single-byte substitution of valid words and compound arguments, as one-step histories.",
             "DESIGN.md section 5, C10", TRUST),
     "C15": ("reference-model monitor (byte-level production predicates) over exhaustive short and boundary-class byte strings",
             "All 16.8 million byte strings of length 0-3, all strings of length 4-6 (quick) / 4-7 (thorough) over 19 boundary bytes, length 8-9 over "
             "8 bytes, every single-byte substitution of 28 valid subtags and random strings are given to Language/Script/Region/Variant "
             "from_bytes, from_str (and Language::try_from); accept/reject must equal the production, and as_str, Display, == &str, "
-            "<&str>::from and is_empty must expose the expected case-folded text; 'und' handling through default(), clear(), try_from(None).",
+            "<&str>::from and is_empty must expose the expected case-folded text; the constructors are compared as values (not only by their text); == with strings that alias "
+            "the subtag's own storage; 'und' handling through default(), clear(), try_from(None).",
             "DESIGN.md section 5, C15", TRUST),
     "C06": ("reference-model monitor (dictionary built from likelySubtags.json, acceptable-answer sets) + Miri on the unsafe lookups",
             "All 8218 CLDR entries are looked up (exhaustive in both tiers) and must give exactly the CLDR value through likelysubtags::maximize and "
             "LanguageIdentifier::maximize. Every (language, script, region) of the CLDR subtag universe plus unknown representatives (thorough: all 3.2e8; "
             "quick: all CLDR-related pairs per language + 1/64 stratified grid sample) must give an answer inside the acceptable set of the statement's "
-            "lookup cascade (the UTS #35 fallbacks are accepted only where the statement grants latitude). Table keys are also run under Miri "
+            "lookup cascade (the UTS #35 fallbacks are accepted only where the statement grants latitude); every query is asked again with the language built by the "
+            "other public constructors; exhaustive single-subtag spaces (every 4-letter script, every region, every 2-3 letter language in fixed contexts). Table keys are also run under Miri "
             "(six unsafe lookups).",
             "DESIGN.md section 5, C06", TRUST + " The JSON data files are ground truth by the property's own wording."),
     "C07": ("algebraic-law monitor on maximize over the triple universe (no reference data)",
@@ -83,11 +88,13 @@ CHECKS = {
             "quantifier says); answers the statement leaves open are counted unconstrained, not judged.",
             "DESIGN.md section 5, C14", TRUST + " The layout JSON files are ground truth by the property's own wording."),
     "C18": ("invariant walker over the compiled statics (cfg hook) + Miri on every stored integer + re-run of the repository's generators",
-            "All 8219 likely-subtags rows and 50 direction rows: strictly increasing under the exact key the binary search uses, every stored integer "
+            "All 8219 likely-subtags rows and 50 direction rows: strictly increasing in one of the two integer key orders a binary search over packed keys can use "
+            "(stored integer or byte-swapped integer) and every row found by the library's own lookup when asked for exactly its key, every stored integer "
             "decodes to a well-formed correctly cased subtag with zero padding only at the top and reads back through the unchecked constructor "
             "(natively and under Miri), the multiset of rows equals an independent re-derivation from likelySubtags.json, direction tables equal the "
-            "sets derivable from the layout files, CLDR_VERSION equals the data's; both generators are re-run and compared token-wise with the "
-            "checked-in files.",
+            "sets derivable from the layout files, CLDR_VERSION equals the data's; both generators are re-run in three build configurations (release, dev, "
+            "release with all features) and compared token-wise with the checked-in files. The tables are read through a width-agnostic module, so a change of their "
+            "integer types is judged rather than breaking the build.",
             "DESIGN.md section 5, C18", TRUST + " Hook: cfg(unic_locale_verif) read-only re-export."),
     "C01": ("panic / CPU-time / exit-status monitor over every text-accepting entry point; Miri + AddressSanitizer in the thorough tier",
             "22 groups of public entry points (both parsers by bytes/str/canonicalize, the doc-hidden iterator entry points try_from_iter / parse_language_identifier_from_iter under four tokenisations, the four subtag types, ExtensionsMap, every extension getter/setter with the "
@@ -99,12 +106,14 @@ CHECKS = {
     "C11": ("reference-formula monitor + derived laws, exhaustive over a product domain",
             "matches() of LanguageIdentifier, Locale and Language is compared with the wildcard formula evaluated on the observed fields for all 46 656 "
             "(a, b, flags) of the product domain (exhaustive) with and without extensions, and on random related pairs; both-false <=> ==, swap symmetry, reflexivity, "
-            "monotonicity in each flag, private tags force false, LanguageIdentifier-vs-Locale operands.",
+            "monotonicity in each flag, private tags force false, LanguageIdentifier-vs-Locale operands; operands rebuilt along every construction route, every registry "
+            "keyword / tfield / attribute as sole extension content, all pairs of real-world languages, likely-subtags results as operands.",
             "DESIGN.md section 5, C11", TRUST),
     "C12": ("pairwise relation checker over a pool of values reached by different routes",
             "All ordered pairs of a pool (3000 quick / 25000 thorough values, each logical value reached along 5 routes): == <=> equal to_string(), equal => same "
             "hash and cmp Equal, antisymmetry, cmp of ids == field-by-field key with absent first, Locale order has the id as major key, pool sorted by Ord is "
-            "sorted by the key and transitive; == &str true iff canonical text, for LanguageIdentifier and the four subtag types.",
+            "sorted by the key and transitive; the same relations for ExtensionsMap and its three lists as values of their own and for all ordered pairs of the pool's "
+            "distinct subtags reached by three routes; == &str true iff canonical text (longer, shorter, re-cased, extended candidates), for LanguageIdentifier and the four subtag types.",
             "DESIGN.md section 5, C12", TRUST),
     "C17": ("round-trip + injectivity monitor; the raw (unsafe) round trips also under Miri (both tiers) and ASan (thorough)",
             "from_parts(into_parts(x)) == x for reachable LanguageIdentifier/Locale values (extension string re-parsed), from_raw_parts_unchecked of both types, every "
